@@ -27,6 +27,7 @@ const (
 	vhloopGetAttrBase = 200000 // gate of File k's GetAttr
 	vhloopSetAttrBase = 300000 // gate of File k's SetAttr
 	vhloopWalkBase    = 400000 // gate of File k's Walk(nil) (clone)
+	vhloopFileBase    = 500000 // gate of EVERY method of File k (except the ones above, which have their own)
 	vhloopReadCount   = 600    // bytes per Tread: Rread = header + count[4] + payload (three Write calls)
 )
 
@@ -35,18 +36,41 @@ type vhloopGate struct {
 	mode int // 0 return ok, 1 return an error, 2 panic
 }
 
+// one entry of the monitor: every File method records its entry and its exit; the driver records
+// gate releases, observed Rflush frames and the start of the teardown in the same sequence
+type vhloopEv struct {
+	Seq    int
+	What   string // enter | exit | release | rflush | teardown
+	Method string
+	File   int
+	Arg    int64
+}
+
 type vhloopBackend struct {
-	mu      sync.Mutex
-	gates   map[int]*vhloopGate
-	entered map[int]int
-	exited  map[int]int
-	open    bool // teardown: nothing blocks any more
-	events  chan int
-	nfile   int
+	mu       sync.Mutex
+	gates    map[int]*vhloopGate
+	entered  map[int]int
+	exited   map[int]int
+	open     bool // teardown: nothing blocks any more
+	events   chan int
+	nfile    int
+	modes    map[int]FileMode // file id -> type (default regular)
+	log      []vhloopEv
+	running  map[[2]int64]int // (file, offset-or-minus-one per method class) -> calls between enter and exit; see key()
+	runFile  map[int]int      // file -> calls between enter and exit
+	released map[int]bool     // gates the driver has released (marked BEFORE the gate opens)
 }
 
 func vhloopNewBackend() *vhloopBackend {
-	return &vhloopBackend{gates: map[int]*vhloopGate{}, entered: map[int]int{}, exited: map[int]int{}, events: make(chan int, 4096)}
+	return &vhloopBackend{gates: map[int]*vhloopGate{}, entered: map[int]int{}, exited: map[int]int{}, events: make(chan int, 4096),
+		modes: map[int]FileMode{}, running: map[[2]int64]int{}, runFile: map[int]int{}, released: map[int]bool{}}
+}
+
+func (b *vhloopBackend) record(what, method string, file int, arg int64) int {
+	// b.mu held
+	e := vhloopEv{Seq: len(b.log), What: what, Method: method, File: file, Arg: arg}
+	b.log = append(b.log, e)
+	return e.Seq
 }
 
 // close a gate before the request that will hit it is sent
@@ -61,10 +85,13 @@ func (b *vhloopBackend) shut(g int) {
 		}
 	}
 	b.gates[g] = &vhloopGate{ch: make(chan struct{})}
+	b.released[g] = false
 }
 
 func (b *vhloopBackend) release(g, mode int) {
 	b.mu.Lock()
+	b.released[g] = true // event order: marked before the gate opens
+	b.record("release", "", g, 0)
 	if gt := b.gates[g]; gt != nil {
 		gt.mode = mode
 		select {
@@ -79,7 +106,9 @@ func (b *vhloopBackend) release(g, mode int) {
 func (b *vhloopBackend) openAll() {
 	b.mu.Lock()
 	b.open = true
-	for _, gt := range b.gates {
+	b.record("teardown", "", 0, 0)
+	for g, gt := range b.gates {
+		b.released[g] = true
 		select {
 		case <-gt.ch:
 		default:
@@ -96,30 +125,90 @@ func (b *vhloopBackend) inside(g int) bool {
 	return b.entered[g] > b.exited[g]
 }
 
-// pass is the body of every gated backend call.
-func (b *vhloopBackend) pass(g int) int {
+// call is the body of every File method: record the entry, wait at every shut gate among gs, record the exit.
+func (b *vhloopBackend) call(method string, file int, arg int64, gs ...int) int {
 	b.mu.Lock()
-	gt := b.gates[g]
-	b.entered[g]++
+	b.record("enter", method, file, arg)
+	b.running[[2]int64{int64(file), arg}]++
+	b.runFile[file]++
+	var waits []*vhloopGate
+	for _, g := range gs {
+		b.entered[g]++
+		if gt := b.gates[g]; gt != nil {
+			waits = append(waits, gt)
+		}
+	}
 	open := b.open
 	b.mu.Unlock()
-	select {
-	case b.events <- g:
-	default:
+	for range gs {
+		select {
+		case b.events <- 0:
+		default:
+		}
 	}
 	mode := 0
-	if gt != nil {
+	for _, gt := range waits {
 		if !open {
 			<-gt.ch
 		}
 		b.mu.Lock()
-		mode = gt.mode
+		if gt.mode != 0 {
+			mode = gt.mode
+		}
 		b.mu.Unlock()
 	}
 	b.mu.Lock()
-	b.exited[g]++
+	for _, g := range gs {
+		b.exited[g]++
+	}
+	b.running[[2]int64{int64(file), arg}]--
+	b.runFile[file]--
+	b.record("exit", method, file, arg)
 	b.mu.Unlock()
 	return mode
+}
+
+// a watch says which backend calls are made on behalf of one request: every call on the files in Files
+// (the request has those files to itself), and the ReadAt/WriteAt at offset Off of file OffFile (Off >= 0)
+type vhloopWatch struct {
+	Files   []int
+	OffFile int
+	Off     int64
+	Gate    int // the gate the request (or, for a chain of flushes, its root) is held at; -1 none
+}
+
+func (w *vhloopWatch) matches(e vhloopEv) bool {
+	for _, f := range w.Files {
+		if e.File == f {
+			return true
+		}
+	}
+	return w.Off >= 0 && e.File == w.OffFile && e.Arg == w.Off && (e.Method == "ReadAt" || e.Method == "WriteAt")
+}
+
+// runningFor: is a call made on behalf of the watched request between enter and exit right now?  (b.mu held)
+func (b *vhloopBackend) runningFor(w *vhloopWatch) bool {
+	for _, f := range w.Files {
+		if b.runFile[f] > 0 {
+			return true
+		}
+	}
+	return w.Off >= 0 && b.running[[2]int64{int64(w.OffFile), w.Off}] > 0
+}
+
+// lateFor: does a call made on behalf of the watched request begin after seq (and before the teardown)?
+func (b *vhloopBackend) lateFor(w *vhloopWatch, seq int) bool {
+	b.mu.Lock()
+	defer b.mu.Unlock()
+	for _, e := range b.log {
+		if e.What == "teardown" {
+			break
+		}
+		if e.Seq > seq && e.What == "enter" && w.matches(e) {
+			return true
+		}
+	}
+	return false
 }
 
 func (b *vhloopBackend) newFile() *vhloopFile {
@@ -142,44 +231,75 @@ type vhloopFile struct {
 
 var errVhloop = linux.EIO
 
-func (f *vhloopFile) qid() QID { return QID{Type: TypeRegular, Path: uint64(f.id) + 1} }
-
-func (f *vhloopFile) GetAttr(req AttrMask) (QID, AttrMask, Attr, error) {
-	if f.b.pass(vhloopGetAttrBase+f.id) == 1 {
-		return QID{}, AttrMask{}, Attr{}, errVhloop
+func (f *vhloopFile) mode() FileMode {
+	f.b.mu.Lock()
+	defer f.b.mu.Unlock()
+	if m, ok := f.b.modes[f.id]; ok {
+		return m
 	}
-	return f.qid(), AttrMask{Mode: true}, Attr{Mode: ModeRegular | 0o644}, nil
+	return ModeRegular
 }
 
-func (f *vhloopFile) SetAttr(valid SetAttrMask, attr SetAttr) error {
-	if f.b.pass(vhloopSetAttrBase+f.id) == 1 {
+func (f *vhloopFile) qid() QID { return QID{Type: f.mode().QIDType(), Path: uint64(f.id) + 1} }
+
+// do is one monitored backend call on this file; own = the method's own gate (0 none).
+func (f *vhloopFile) do(method string, arg int64, own int) error {
+	gs := []int{vhloopFileBase + f.id}
+	if own != 0 {
+		gs = []int{own, vhloopFileBase + f.id}
+	}
+	switch f.b.call(method, f.id, arg, gs...) {
+	case 1:
 		return errVhloop
+	case 2:
+		panic("vhloop: backend panic requested")
 	}
 	return nil
 }
 
+func (f *vhloopFile) GetAttr(req AttrMask) (QID, AttrMask, Attr, error) {
+	if err := f.do("GetAttr", -1, vhloopGetAttrBase+f.id); err != nil {
+		return QID{}, AttrMask{}, Attr{}, err
+	}
+	return f.qid(), AttrMask{Mode: true}, Attr{Mode: f.mode() | 0o644}, nil
+}
+
+func (f *vhloopFile) SetAttr(valid SetAttrMask, attr SetAttr) error {
+	return f.do("SetAttr", -1, vhloopSetAttrBase+f.id)
+}
+
 func (f *vhloopFile) Walk(names []string) ([]QID, File, error) {
-	if len(names) != 0 {
+	if len(names) > 1 {
 		return nil, nil, linux.ENOENT
 	}
-	if f.b.pass(vhloopWalkBase+f.id) == 1 {
-		return nil, nil, errVhloop
+	own := 0
+	if len(names) == 0 {
+		own = vhloopWalkBase + f.id
 	}
-	return nil, f.b.newFile(), nil
+	if err := f.do("Walk", -1, own); err != nil {
+		return nil, nil, err
+	}
+	nf := f.b.newFile()
+	if len(names) == 0 {
+		return nil, nf, nil
+	}
+	return []QID{nf.qid()}, nf, nil
 }
 
 func (f *vhloopFile) WalkGetAttr(names []string) ([]QID, File, AttrMask, Attr, error) {
 	return nil, nil, AttrMask{}, Attr{}, linux.ENOSYS
 }
 
-func (f *vhloopFile) Open(mode OpenFlags) (QID, uint32, error) { return f.qid(), 0, nil }
+func (f *vhloopFile) Open(mode OpenFlags) (QID, uint32, error) {
+	if err := f.do("Open", -1, 0); err != nil {
+		return QID{}, 0, err
+	}
+	return f.qid(), 0, nil
+}
 
 func (f *vhloopFile) ReadAt(p []byte, offset int64) (int, error) {
-	switch f.b.pass(int(offset)) {
-	case 1:
-		return 0, errVhloop
-	case 2:
-		panic("vhloop: backend panic requested")
+	if err := f.do("ReadAt", offset, int(offset)); err != nil {
+		return 0, err
 	}
 	for i := range p {
 		p[i] = vhloopFill
@@ -187,12 +307,57 @@ func (f *vhloopFile) ReadAt(p []byte, offset int64) (int, error) {
 	return len(p), nil
 }
 
-func (f *vhloopFile) Close() error {
-	if f.b.pass(vhloopCloseBase+f.id) == 1 {
-		return errVhloop
+func (f *vhloopFile) WriteAt(p []byte, offset int64) (int, error) {
+	if err := f.do("WriteAt", offset, int(offset)); err != nil {
+		return 0, err
 	}
-	return nil
+	return len(p), nil
 }
+
+func (f *vhloopFile) Close() error { return f.do("Close", -1, vhloopCloseBase+f.id) }
+func (f *vhloopFile) FSync() error { return f.do("FSync", -1, 0) }
+func (f *vhloopFile) StatFS() (FSStat, error) {
+	return FSStat{}, f.do("StatFS", -1, 0)
+}
+func (f *vhloopFile) SetXattr(attr string, data []byte, flags XattrFlags) error {
+	return f.do("SetXattr", -1, 0)
+}
+func (f *vhloopFile) GetXattr(attr string) ([]byte, error) {
+	return []byte("value"), f.do("GetXattr", -1, 0)
+}
+func (f *vhloopFile) ListXattrs() ([]string, error) {
+	return []string{"user.a"}, f.do("ListXattrs", -1, 0)
+}
+func (f *vhloopFile) RemoveXattr(attr string) error { return f.do("RemoveXattr", -1, 0) }
+func (f *vhloopFile) Lock(pid int, locktype LockType, flags LockFlags, start, length uint64, client string) (LockStatus, error) {
+	return LockStatusOK, f.do("Lock", -1, 0)
+}
+func (f *vhloopFile) Create(name string, flags OpenFlags, permissions FileMode, uid UID, gid GID) (File, QID, uint32, error) {
+	if err := f.do("Create", -1, 0); err != nil {
+		return nil, QID{}, 0, err
+	}
+	nf := f.b.newFile()
+	return nf, nf.qid(), 0, nil
+}
+func (f *vhloopFile) Mkdir(name string, permissions FileMode, uid UID, gid GID) (QID, error) {
+	return QID{Type: TypeDir, Path: 9000}, f.do("Mkdir", -1, 0)
+}
+func (f *vhloopFile) Symlink(oldName string, newName string, uid UID, gid GID) (QID, error) {
+	return QID{Type: TypeSymlink, Path: 9001}, f.do("Symlink", -1, 0)
+}
+func (f *vhloopFile) Link(target File, newName string) error { return f.do("Link", -1, 0) }
+func (f *vhloopFile) Mknod(name string, mode FileMode, major uint32, minor uint32, uid UID, gid GID) (QID, error) {
+	return QID{Type: TypeRegular, Path: 9002}, f.do("Mknod", -1, 0)
+}
+func (f *vhloopFile) Rename(newDir File, newName string) error { return f.do("Rename", -1, 0) }
+func (f *vhloopFile) RenameAt(oldName string, newDir File, newName string) error {
+	return f.do("RenameAt", -1, 0)
+}
+func (f *vhloopFile) UnlinkAt(name string, flags uint32) error { return f.do("UnlinkAt", -1, 0) }
+func (f *vhloopFile) Readdir(offset uint64, count uint32) (Dirents, error) {
+	return nil, f.do("Readdir", -1, 0)
+}
+func (f *vhloopFile) Readlink() (string, error) { return "target", f.do("Readlink", -1, 0) }
 
 func (f *vhloopFile) Renamed(newDir File, newName string) {}
 
@@ -237,18 +402,23 @@ func vhloopEnc(tg uint16, m message) []byte {
 }
 
 type vhloopReply struct {
-	Conn     int  `json:"conn"`
-	Typ      int  `json:"typ"`
-	Tag      int  `json:"tag"`
-	Valid    bool `json:"valid"`  // size and body are what this reply type must look like
-	InsideBk bool `json:"inside"` // Rflush only: a backend call made on behalf of the flushed request was still running when the Rflush was read
-	Target   int  `json:"target"` // Rflush only: gate of the flushed request (-1 none)
+	Conn      int  `json:"conn"`
+	Typ       int  `json:"typ"`
+	Tag       int  `json:"tag"`
+	Valid     bool `json:"valid"`     // size and body are what this reply type must look like
+	InsideBk  bool `json:"inside"`    // Rflush only: a backend call made on behalf of the flushed request was between enter and exit when the Rflush was read
+	Premature bool `json:"premature"` // Rflush only: read BEFORE the driver released the gate the flushed request is held at (event order, no timing)
+	Late      bool `json:"late"`      // Rflush only: a backend call made on behalf of the flushed request began after the Rflush was read
+	Target    int  `json:"target"`    // Rflush only: gate the flushed request (or the root of the flush chain) is held at (-1 none)
+	seq       int
+	watch     *vhloopWatch
 }
 
 var vhloopFixedLen = map[msgType]int{}
 
 func init() {
-	for _, m := range []message{&rattach{}, &rgetattr{}, &rsetattr{}, &rwalkgetattr{}, &rlopen{}, &rclunk{}, &rflush{}} {
+	for _, m := range []message{&rattach{}, &rgetattr{}, &rsetattr{}, &rwalkgetattr{}, &rlopen{}, &rclunk{}, &rflush{}, &rwrite{}, &rfsync{},
+		&rlcreate{}, &rmkdir{}, &rsymlink{}, &rmknod{}, &rlink{}, &runlinkat{}, &rrenameat{}, &rrename{}, &rstatfs{}, &rxattrwalk{}, &rlock{}, &rremove{}} {
 		vhloopFixedLen[m.typ()] = len(vhloopEnc(0, m)) - 7
 	}
 }
@@ -272,7 +442,7 @@ func vhloopValid(typ byte, body []byte) bool {
 			}
 		}
 		return true
-	case msgRversion:
+	case msgRversion, msgRreaddir, msgRreadlink, msgRwalk:
 		return true
 	}
 	if n, ok := vhloopFixedLen[msgType(typ)]; ok {
@@ -291,17 +461,17 @@ type vhloopConn struct {
 	rdone   chan struct{}    // the reader saw the end of the reply stream
 	frames  chan vhloopReply // shared by the connections of a scenario
 	mu      sync.Mutex
-	targets map[int]int // flush tag -> gate of the request it has to wait for (-1: none)
-	left    int         // bytes after the last whole frame at EOF
-	bad     bool        // a header with an impossible size was seen
-	broken  bool        // we closed the reply pipe ourselves
+	targets map[int]*vhloopWatch // flush tag -> the backend calls that must be over before it is answered
+	left    int                  // bytes after the last whole frame at EOF
+	bad     bool                 // a header with an impossible size was seen
+	broken  bool                 // we closed the reply pipe ourselves
 	hungup  bool
 }
 
 func vhloopDial(srv *Server, bk *vhloopBackend, id int, frag bool, frames chan vhloopReply) *vhloopConn {
 	qc, qs := net.Pipe()
 	rc, rs := net.Pipe()
-	v := &vhloopConn{id: id, bk: bk, q: qc, r: rc, done: make(chan struct{}), rdone: make(chan struct{}), frames: frames, targets: map[int]int{}}
+	v := &vhloopConn{id: id, bk: bk, q: qc, r: rc, done: make(chan struct{}), rdone: make(chan struct{}), frames: frames, targets: map[int]*vhloopWatch{}}
 	go func() {
 		if frag {
 			srv.Handle(qs, &vhloopFrag{c: rs})
@@ -343,12 +513,17 @@ func (v *vhloopConn) reader() {
 		r := vhloopReply{Conn: v.id, Typ: int(hdr[4]), Tag: int(binary.LittleEndian.Uint16(hdr[5:])), Valid: vhloopValid(hdr[4], body), Target: -1}
 		if msgType(hdr[4]) == msgRflush {
 			v.mu.Lock()
-			g, ok := v.targets[r.Tag]
+			w := v.targets[r.Tag]
 			v.mu.Unlock()
-			if ok && g >= 0 {
-				r.Target = g
-				r.InsideBk = v.bk.inside(g)
+			v.bk.mu.Lock()
+			r.seq = v.bk.record("rflush", "", r.Tag, int64(v.id))
+			if w != nil {
+				r.watch = w
+				r.Target = w.Gate
+				r.InsideBk = v.bk.runningFor(w)
+				r.Premature = w.Gate >= 0 && !v.bk.released[w.Gate]
 			}
+			v.bk.mu.Unlock()
 		}
 		v.frames <- r
 	}
